@@ -83,7 +83,7 @@ pub fn worker(case_file: &str, start: usize) {
 }
 
 pub fn run(ctx: &mut Ctx) {
-    ctx.rule = "inputs: corpus, every string of <=2 (quick) / <=3 (thorough) symbols of the 47-symbol token alphabet, token soups, structured recipes with mutations, well-formed recipes, a stress family (long repetitions of nesting/marker tokens, 400-digit numbers, huge metadata values); all 256 extension patterns round-robin; per input, in worker subprocesses under catch_unwind and a 10 s watchdog: PullParser (events, metadata iterator), build_ast, parse_metadata, parse, SourceReport::write (plain/colour), metadata accessors, serde_json of the recipe, default_scale, scale with 5 factors, scale_to_servings, group_ingredients, group_cookware, IngredientList + categorize, convert to both systems; with the empty and the bundled converter. The parse of every input is also compared with the model's panic flag. distinct = distinct request lines".into();
+    ctx.rule = "inputs: corpus, every string of <=2 (quick) / <=3 (thorough) symbols of the 47-symbol token alphabet, token soups, structured recipes with mutations, well-formed recipes, a stress family (long repetitions of nesting/marker tokens, 400-digit numbers, huge metadata values); all 256 extension patterns round-robin; per input, in worker subprocesses under catch_unwind and a 45 s watchdog: PullParser (events, metadata iterator), build_ast, parse_metadata, parse, SourceReport::write (plain/colour), metadata accessors, serde_json of the recipe, default_scale, scale with 5 factors, scale_to_servings, group_ingredients, group_cookware, IngredientList + categorize, convert to both systems; with the empty and the bundled converter. The parse of every input is also compared with the model's panic flag. distinct = distinct request lines".into();
     let mut rng = Rng::new(ctx.seed ^ 0xC03);
     let mut cases: Vec<(String, u32)> = Vec::new();
     {
@@ -119,7 +119,7 @@ pub fn run(ctx: &mut Ctx) {
                     let mut current: Option<usize> = None;
                     let mut finished = false;
                     loop {
-                        match lrx.recv_timeout(Duration::from_secs(10)) {
+                        match lrx.recv_timeout(Duration::from_secs(45)) {
                             Ok(l) => {
                                 if let Some(i) = l.strip_prefix("S ") { current = i.parse().ok(); }
                                 else if let Some(i) = l.strip_prefix("D ") { if let Ok(i) = i.parse::<usize>() { next = i + 1; current = None; } }
@@ -127,7 +127,7 @@ pub fn run(ctx: &mut Ctx) {
                             }
                             Err(mpsc::RecvTimeoutError::Timeout) => {
                                 let _ = child.kill();
-                                if let Some(i) = current { let _ = tx.send((lo + i, "hang".into(), "?".into(), "no progress for 10 s".into())); next = i + 1; } else { next += 1; }
+                                if let Some(i) = current { let _ = tx.send((lo + i, "hang".into(), "?".into(), "no progress for 45 s".into())); next = i + 1; } else { next += 1; }
                                 break;
                             }
                             Err(mpsc::RecvTimeoutError::Disconnected) => {
@@ -155,7 +155,7 @@ pub fn run(ctx: &mut Ctx) {
         let desc = format!("{entry} ext={e} input={shown:?}");
         match kind.as_str() {
             "panic" => { ctx.count(&format!("panic:{entry}")); ctx.oracle_fail(desc, format!("{entry} panicked: {info}"), panic_signature(&info)); }
-            "hang" => { poisoned.insert(idx); ctx.oracle_fail(desc, "no progress for 10 s (non-termination or pathological time)".into(), "c03:hang".into()); }
+            "hang" => { poisoned.insert(idx); ctx.oracle_fail(desc, "no progress for 45 s (non-termination or pathological time)".into(), "c03:hang".into()); }
             _ => { poisoned.insert(idx); ctx.oracle_fail(desc, format!("the process died on this input: {info}"), "c03:abort".into()); }
         }
     }
